@@ -1,8 +1,8 @@
-"""Headless driver of the menuconfig session: the app-level flows of esp_menuconfig/app.py replayed over MenuConfigState.
-
-Every method mirrors one Textual binding / message handler of MenuConfigApp (the code it mirrors is named in the
-docstring).  Dialogs are answered by the action's arguments.  After every action `refresh()` does what
-`_refresh_menu()` makes the UI do: format every shown row, the menu path, and keep the highlighted index.
+"""Headless driver of the menuconfig session: every action calls the REAL binding / message handler of
+esp_menuconfig.app.MenuConfigApp (action_save, _on_node_toggled, _apply_input, ...) on a stub that replaces only what needs
+a running Textual application: the widgets (the list widget keeps the real populate / current_node code), notify / exit
+and push_screen.  Dialogs are answered immediately by the action's arguments, with the submit logic of the real screens
+(InputScreen validates before it dismisses).
 
 actions (plain data, interpreted by `apply`):
   ["select", i]            highlight row i (mod number of rows; the '<-- Back' pseudo row is modelled by "leave")
@@ -18,11 +18,14 @@ actions (plain data, interpreted by `apply`):
   ["load", file_index, confirm]   o: load another file (confirmation dialog when there are unsaved changes)
   ["save"]                 s
   ["save_min", labels]     d
+  ["choose", ci, mi]       composite: jump to the ci-th choice, highlight row mi, Space, leave
+  ["quit", key]            q, the 'Save configuration?' dialog answered with y / n / c
 """
 
 from __future__ import annotations
 
 import os
+import types
 from typing import Any, List, Optional
 
 from . import env  # noqa: F401
@@ -30,7 +33,122 @@ from . import kc
 
 import esp_menuconfig  # noqa: E402
 from esp_menuconfig import formatting as fmt  # noqa: E402
+from esp_menuconfig.app import MenuConfigApp  # noqa: E402
 from esp_menuconfig.model import ChangeResult, MenuConfigState  # noqa: E402
+from esp_menuconfig.screens import SaveMinimalResult  # noqa: E402
+from esp_menuconfig.widgets import MenuOptionList  # noqa: E402
+
+
+class _FakeStatic:
+    """Stand-in for the Static bars of the UI (path, modes, help)."""
+
+    def __init__(self):
+        self.display = True
+        self.text = ""
+
+    def update(self, text="") -> None:
+        self.text = text
+
+
+class _FakeList:
+    """Stand-in for MenuOptionList: the row bookkeeping of the real widget (populate / current_node are the real functions),
+    without the Textual machinery.  As in Textual, nothing is highlighted after the list has been rebuilt unless the
+    rebuild restores an index."""
+
+    _BACK_LABEL = MenuOptionList._BACK_LABEL
+    populate = MenuOptionList.populate
+    current_node = MenuOptionList.current_node
+
+    def __init__(self):
+        self._menu_nodes: List[Any] = []
+        self.highlighted: Optional[int] = None
+        self.labels: List[str] = []
+
+    def clear_options(self) -> None:
+        self.labels = []
+        self.highlighted = None
+
+    def add_option(self, label) -> None:
+        self.labels.append(label)
+
+
+class HeadlessApp:
+    """Runs the REAL handlers of esp_menuconfig.app.MenuConfigApp (every attribute that is not defined here is looked up on
+    that class and bound to this object); only what needs a running Textual application is replaced: widgets, notify / exit
+    and push_screen, which answers a dialog immediately from the answers of the current action."""
+
+    def __init__(self, state: MenuConfigState):
+        self.state = state
+        self.ml = _FakeList()
+        self.bars = {"#path-bar": _FakeStatic(), "#mode-bar": _FakeStatic(), "#help-bar": _FakeStatic()}
+        self.notes: List[Any] = []
+        self.exited: Optional[str] = None
+        self.answers: dict = {}
+        self.applied: List[Any] = []
+
+    def __getattr__(self, name):
+        f = MenuConfigApp.__dict__.get(name)
+        if f is None or not callable(f):
+            raise AttributeError(name)
+        return types.MethodType(f, self)
+
+    def query_one(self, selector, _cls=None):
+        if selector == "#menu-list":
+            return self.ml
+        return self.bars[selector]
+
+    def notify(self, message, severity=None, **_k) -> None:
+        self.notes.append((severity or "information", message))
+
+    def exit(self, message=None) -> None:
+        self.exited = message or ""
+
+    def push_screen(self, screen, callback=None) -> None:
+        ans = self.answers
+        kind = type(screen).__name__
+        if kind == "KeyDialogScreen":
+            key = ans.get("key")
+            if callback is not None and key in (screen.allowed_keys or ""):
+                callback(key)
+        elif kind == "InputScreen":
+            text = ans.get("text")
+            sym = ans.get("sym")
+            if isinstance(text, dict):  # one candidate text per option type: the generator cannot know the row's type
+                text = text.get(kc.TYPE_NAME.get(getattr(sym, "orig_type", None), "string"))
+            if text is None:
+                if callback is not None:
+                    callback(None)  # Escape
+                return
+            # InputScreen.on_input_submitted
+            if screen.validator:
+                valid, _error = screen.validator(text)
+                if not valid:
+                    self.applied.append((sym, text, False, None))
+                    if callback is not None:
+                        callback(None)  # InvalidValueScreen, then the user gives up with Escape
+                    return
+            node = ans.get("node")
+            changeable = self.state.changeable(node) if node is not None else None
+            rec = [sym, text, True, (None, changeable)]
+            self.applied.append(rec)
+            if callback is not None:
+                callback(text)
+        elif kind == "LoadScreen":
+            if callback is not None:
+                callback(ans.get("filename"))
+        elif kind == "SaveMinimalConfigScreen":
+            if callback is not None:
+                callback(SaveMinimalResult(ans.get("min_filename", screen.default_filename if hasattr(screen, "default_filename") else self.state.minconf_filename), bool(ans.get("labels"))))
+        elif kind == "JumpToScreen":
+            if callback is not None:
+                callback(ans.get("jump_node"))
+        elif kind == "InfoScreen":
+            node = ans.get("info_node")
+            if node is not None:
+                fmt.info_str(node, self.state.kconf)
+                fmt.info_title(node)
+        else:
+            raise ValueError(kind)
 
 
 class Driver:
@@ -44,143 +162,112 @@ class Driver:
         if self.state is None or self.state.kconf is not kconf:
             # menuconfig() returns early for an empty configuration: build the state the same way it does
             self.state = MenuConfigState(kconf=kconf, conf_filename=conf_filename, minconf_filename=os.path.join(os.path.dirname(conf_filename), "sdkconfig.defaults"), conf_changed=False)
-        self.applied: List[Any] = []  # (symbol name, requested value, accepted by validator) for C17
+        self.app = HeadlessApp(self.state)
+        self.applied = self.app.applied  # (symbol, typed text, accepted by the validator, (value applied, changeable)) for C17
         self.left: Optional[Any] = None
+        self.app._refresh_menu()  # on_mount
 
     # ---- what the UI does on every refresh --------------------------------------------------------------------------
     def refresh(self) -> None:
-        st = self.state
-        for node in st.shown:
-            fmt.node_str(node, show_name=st.show_name, has_visible_child_fn=st.has_visible_child, kconf=st.kconf)
-            st._visible(node)
-        st.menu_path()
-        if st.show_help and st.shown:
-            _ = st.shown[min(st.sel_node_i, len(st.shown) - 1)].help
+        # the handlers refresh the list themselves; this is the idle repaint (and keeps the check's call sites unchanged)
+        self.app._refresh_menu()
 
     # ---- actions --------------------------------------------------------------------------------------------------------
     def apply(self, a) -> Optional[str]:
-        st = self.state
+        st, app, ml = self.state, self.app, self.app.ml
         kind = a[0]
         self.left = None
-        if kind == "select":
-            if st.shown:
-                st.sel_node_i = a[1] % len(st.shown)  # OptionHighlighted + _sync_sel_node_i
+        app.answers = {}
+        if kind == "select":  # cursor keys: any row of the list, the '<-- Back' row included
+            if ml._menu_nodes:
+                ml.highlighted = a[1] % len(ml._menu_nodes)
+                app._on_option_highlighted(types.SimpleNamespace(option_index=ml.highlighted))
             return None
-        if not st.shown and kind in ("enter", "toggle", "y", "n", "reset", "info"):
-            return None
-        if kind == "enter":  # _on_node_selected
-            node = st.selected_node
-            if not st.enter_menu(node):
-                self._handle_change(node, a[1] if len(a) > 1 else None, a[2] if len(a) > 2 else "y")
-        elif kind == "toggle":  # _on_node_toggled
-            node = st.selected_node
-            result = st.change_node(node)
-            if result == ChangeResult.NO_CHANGE:
-                st.enter_menu(node)
-            elif result == ChangeResult.NEEDS_INPUT:
-                self._input(node, a[1] if len(a) > 1 else None)
-            elif result == ChangeResult.NEEDS_WARNING:
-                self._warned(node, a[1] if len(a) > 1 else None, a[2] if len(a) > 2 else "y")
-            elif result == ChangeResult.LEFT_MENU:
-                pass
-        elif kind == "leave":  # _on_leave_requested
+        node = ml.current_node
+        if kind == "enter":  # Enter / right: MenuOptionList._select_current
+            if ml.highlighted is None or ml.highlighted >= len(ml._menu_nodes):
+                return None
+            if node is None:
+                kind = "leave"  # the Back row
+            else:
+                app.answers = {"text": a[1] if len(a) > 1 else None, "key": a[2] if len(a) > 2 else "y", "sym": node.item, "node": node}
+                app._on_node_selected(types.SimpleNamespace(node=node))
+                self._fix_applied()
+                return None
+        if kind == "toggle":  # Space: MenuOptionList.action_toggle_node
+            if node is None:
+                return None
+            app.answers = {"text": a[1] if len(a) > 1 else None, "key": a[2] if len(a) > 2 else "y", "sym": node.item, "node": node}
+            app._on_node_toggled(types.SimpleNamespace(node=node))
+            self._fix_applied()
+        elif kind == "leave":  # left / backspace
             if st.cur_menu is not st.kconf.top_node:
                 self.left = st.cur_menu
-                st.leave_menu()
-        elif kind in ("y", "n"):  # _on_bool_value_set
-            st.set_sel_node_bool_val(2 if kind == "y" else 0)
-        elif kind == "reset":  # action_restore_default
-            node = st.selected_node
-            if node.item == kc.core.MENU:
-                if (a[1] if len(a) > 1 else "y") == "y":
-                    st.restore_defaults_recursive(node)
-            else:
-                st.restore_default(node)
+            app._on_leave_requested(types.SimpleNamespace())
+        elif kind in ("y", "n"):
+            app._on_bool_value_set(types.SimpleNamespace(bool_val=2 if kind == "y" else 0))
+        elif kind == "reset":
+            app.answers = {"key": a[1] if len(a) > 1 else "y"}
+            app.action_restore_default()
         elif kind == "show_all":
-            st.toggle_show_all()
+            app.action_toggle_all()
         elif kind == "show_name":
-            st.show_name = not st.show_name
+            app.action_toggle_name()
         elif kind == "show_help":
-            st.show_help = not st.show_help
+            app.action_toggle_help()
         elif kind == "jump":  # JumpToScreen lists _get_sorted_sc_nodes() + menus/comments when the query matches
             nodes = list(st._get_sorted_sc_nodes()) + list(st._get_sorted_menu_comment_nodes())
-            if nodes:
-                st.jump_to(nodes[a[1] % len(nodes)])
+            app.answers = {"jump_node": nodes[a[1] % len(nodes)] if nodes else None}
+            app.action_jump_to()
         elif kind == "search":
             matches, _err = st.search_nodes(a[1])
-            if matches:
-                st.jump_to(matches[a[2] % len(matches)])
-        elif kind == "info":  # action_show_info -> InfoScreen
-            node = st.selected_node
-            fmt.info_str(node, st.kconf)
-            fmt.info_title(node)
-        elif kind == "load":  # action_load / _handle_load_result
-            if st.conf_changed and (a[2] if len(a) > 2 else "o") != "o":
+            app.answers = {"jump_node": matches[a[2] % len(matches)] if matches else None}
+            app.action_jump_to()
+        elif kind == "info":
+            app.answers = {"info_node": node}
+            app.action_show_info()
+        elif kind == "load":
+            app.answers = {"key": a[2] if len(a) > 2 else "o", "filename": self.files[a[1] % len(self.files)] if self.files else None}
+            app.action_load()
+        elif kind == "save":
+            before = len(app.notes)
+            app.action_save()
+            return "saved" if any(sev != "error" for sev, _m in app.notes[before:]) else None
+        elif kind == "save_min":
+            app.answers = {"labels": bool(a[1] if len(a) > 1 else False), "min_filename": st.minconf_filename}
+            app.action_save_minimal()
+        elif kind == "choose":  # a user picking a choice member: jump to the choice, highlight a member, Space, leave
+            chs = [n for n in st.kconf.node_iter() if isinstance(n.item, kc.core.Choice)]
+            if not chs:
                 return None
-            if self.files:
-                filename = self.files[a[1] % len(self.files)]
-                success, _error = st.try_load(filename)
-                if success:
-                    st.conf_changed = st.needs_save()
-                    if st.shown and st.selected_node not in st.shown_nodes(st.cur_menu):
-                        st.show_all = True
-                    if st.shown:
-                        st._update_menu()
-        elif kind == "save":  # action_save / _do_save
-            from esp_menuconfig.idf_headers import idf_sdkconfig_header
-
-            msg = st.kconf.write_config(st.conf_filename, header=idf_sdkconfig_header(), write_deprecated=False)
-            st.saved = True
-            if msg:
-                st.conf_changed = False
-                st.reload_sdkconfig_file(st.conf_filename)
-            return "saved"
-        elif kind == "save_min":  # _handle_save_minimal_result
-            from esp_menuconfig.idf_headers import idf_min_config_save_header
-
-            st.kconf.write_min_config(st.minconf_filename, header=idf_min_config_save_header(st.kconf), labels=bool(a[1] if len(a) > 1 else False), normalize_unset=True)
+            app.answers = {"jump_node": chs[a[1] % len(chs)]}
+            app.action_jump_to()
+            self.refresh()
+            self.apply(["select", a[2]])
+            self.apply(["toggle", None, "y"])
+            self.refresh()
+            self.apply(["leave"])
+        elif kind == "quit":  # q / Escape at the top level, answered with a[1] in y / n / c
+            app.answers = {"key": a[1] if len(a) > 1 else "c"}
+            app.action_quit_dialog()
+            return "exited" if app.exited is not None else None
         else:
             raise ValueError(a)
         return None
 
-    # ---- dialogs ----------------------------------------------------------------------------------------------------------
-    def _handle_change(self, node, text, yn) -> None:  # _handle_change
-        result = self.state.change_node(node)
-        if result == ChangeResult.NEEDS_INPUT:
-            self._input(node, text)
-        elif result == ChangeResult.NEEDS_WARNING:
-            self._warned(node, text, yn)
-
-    def _warned(self, node, text, yn) -> None:  # _show_warning_then_change / _do_warned_change
-        sym = node.item
-        if not isinstance(sym, kc.core.Symbol) or not sym.warning:
-            return
-        if yn != "y":
-            return
-        result = self.state.force_change_node(node)
-        if result == ChangeResult.NEEDS_INPUT:
-            self._input(node, text)
-
-    def _input(self, node, text) -> None:  # _show_input_dialog / InputScreen.on_input_submitted / _apply_input
-        sym = node.item
-        if isinstance(text, dict):  # one candidate text per option type: the generator cannot know the row's type
-            text = text.get(kc.TYPE_NAME.get(getattr(sym, "orig_type", None), "string"))
-        if not isinstance(sym, kc.core.Symbol) or text is None:
-            return  # dialog cancelled
-        valid, _error = self.state.check_valid(sym, text)
-        if not valid:
-            self.applied.append((sym, text, False, None))
-            return  # InvalidValueScreen, the dialog stays open; the user gives up
-        val = text
-        if sym.orig_type == kc.HEX:
-            val = val.strip()
-            if not val.startswith(("0x", "0X")):
-                val = "0x" + val
-        elif sym.orig_type != kc.STRING:
-            val = val.strip()
-        changeable = self.state.changeable(node)
-        self.state.set_val(sym, val)
-        self.applied.append((sym, text, True, (val, changeable)))
+    def _fix_applied(self) -> None:
+        """Completes the records of typed values with the text _apply_input handed to set_val."""
+        for rec in self.app.applied:
+            if rec[2] and rec[3] is not None and rec[3][0] is None:
+                sym, text = rec[0], rec[1]
+                val = text
+                if getattr(sym, "orig_type", None) == kc.HEX:
+                    val = val.strip()
+                    if not val.startswith(("0x", "0X")):
+                        val = "0x" + val
+                elif getattr(sym, "orig_type", None) != kc.STRING:
+                    val = val.strip()
+                rec[3] = (val, rec[3][1])
 
     # ---- what saving would write -------------------------------------------------------------------------------------------
     def would_write(self) -> str:
@@ -195,7 +282,7 @@ def gen_actions(d, tree, cfg, lo=3, hi=20, n_files=0, weights=None):
 
     weights = weights or [
         (24, "select"), (12, "enter"), (14, "toggle"), (9, "leave"), (5, "y"), (5, "n"), (6, "reset"), (4, "show_all"),
-        (2, "show_name"), (1, "show_help"), (6, "jump"), (2, "search"), (3, "info"), (3, "load"), (6, "save"), (1, "save_min"),
+        (2, "show_name"), (1, "show_help"), (6, "jump"), (2, "search"), (3, "info"), (3, "load"), (6, "save"), (1, "save_min"), (7, "choose"),
     ]
     out = []
     for _ in range(d.int(lo, hi)):
@@ -220,6 +307,10 @@ def gen_actions(d, tree, cfg, lo=3, hi=20, n_files=0, weights=None):
                 out.append(["load", d.int(0, n_files - 1), "o" if not d.chance(20) else "c"])
         elif k == "save_min":
             out.append(["save_min", d.chance(50)])
+        elif k == "choose":
+            out.append(["choose", d.int(0, 3), d.int(0, 4)])
+        elif k == "quit":
+            out.append(["quit", d.pick(("c", "c", "n"))])  # 'y' would save: covered by "save"
         else:
             out.append([k])
     return out
